@@ -28,6 +28,7 @@ struct Raw
     struct Storage writer;
     struct StorageProperties properties;
     struct file file;
+    uint8_t is_open; // nonzero while `file` holds a descriptor we opened
     size_t offset;
 };
 
@@ -85,6 +86,7 @@ raw_start(struct Storage* self_)
     CHECK(file_create(
       &self->file, self->properties.uri.str, self->properties.uri.nbytes));
     LOG("RAW: Frame header size %d bytes", (int)sizeof(struct VideoFrame));
+    self->is_open = 1;
     return DeviceState_Running;
 Error:
     return DeviceState_AwaitingConfiguration;
@@ -94,7 +96,10 @@ static enum DeviceState
 raw_stop(struct Storage* self_)
 {
     struct Raw* self = containerof(self_, struct Raw, writer);
-    file_close(&self->file);
+    if (self->is_open) {
+        file_close(&self->file);
+        self->is_open = 0;
+    }
     return DeviceState_Armed;
 }
 
